@@ -577,6 +577,7 @@ fn seed_bytes(p: &Prepared) -> &[u8] {
 }
 
 pub fn run(ctx: &mut Ctx) {
+    ctx.enable_crash_sentinel();
     ctx.assume("seeds are honest encodings of generated squares/headers; a target 'returns' when it yields Ok or Err; panics are caught by catch_unwind (aborts/stack overflows would end the process: exit 2)");
     ctx.assume("harness build has debug-assertions and overflow-checks on (covers 'including in debug builds')");
     let labels: Vec<String> = ALL_TARGETS.iter().map(|t| format!("target-{t:?}")).collect();
